@@ -66,12 +66,19 @@ func planUnits(thorough bool) (units []unit, bounds map[string]interface{}) {
 	addPlan := func(p e2ePlan) {
 		n := len(p.set)
 		per := int64(0)
+		if p.cache {
+			nreq := int64(4*len(p.ms) + 12)
+			per = nreq * nreq * 6 * 2
+		}
 		for range p.clients {
+			if p.cache {
+				break
+			}
 			per += int64(len(p.ms)*len(p.fams)) * pow5(n)
 			if p.addl {
-				per += 4 * pow5(n)
-				if n <= 2 && (p.backend == dnsfix.CDB || n == 1) {
-					per += 2 * pow5(2*n)
+				per += 2*int64(len(addlSects))*pow5(n) + pow5(2*n)
+				if bothFor(p.set, p.backend) {
+					per += int64(len(addlSects)) * pow5(2*n)
 				}
 			}
 		}
@@ -105,6 +112,13 @@ func planUnits(thorough bool) (units []unit, bounds map[string]interface{}) {
 			}
 			if thorough && n <= 2 {
 				addPlan(e2ePlan{set: set, backend: dnsfix.RDBv1, ms: seq(1, 8), fams: []int{4, 6}, clients: both, addl: true, shuffle: true})
+			}
+			// part 1b: response cache enabled
+			if n <= 3 || (thorough && n == 4) {
+				addPlan(e2ePlan{set: set, backend: dnsfix.CDB, ms: seq(1, 8), cache: true})
+			}
+			if n <= 1 || (thorough && n == 2) {
+				addPlan(e2ePlan{set: set, backend: dnsfix.RDBv2, ms: seq(1, 8), cache: true})
 			}
 		}
 	}
@@ -241,7 +255,11 @@ func main() {
 			t0 := time.Now() // reporting only (VERIF_DEBUG); nothing depends on it
 			switch u.kind {
 			case "e2e":
-				runPlan(r, u.plan, &es)
+				if u.plan.cache {
+					runCachePlan(r, u.plan, &es)
+				} else {
+					runPlan(r, u.plan, &es)
+				}
 			case "prop":
 				propUnit(r, u.vec, u.cand, propLogN, &ps)
 				ps.vectors++
@@ -268,6 +286,15 @@ func main() {
 		r.Add("e2e_configurations", es.configs)
 		r.Add("e2e_misaligned_slot_client_configurations", es.misaligned)
 		r.Add("e2e_rocksdb_evaluations_outside_scripted_draw_range", deviations)
+		r.Add("e2e_cdb_evaluations_outside_scripted_draw_range", deviationsCDB)
+		r.Add("e2e_cdb_misaligned_slot_client_configurations", es.misalignedCDB)
+		r.Add("e2e_configurations_on_reduced_draw_alphabet", es.reduced)
+		r.Add("cache_evaluations", es.cacheEvals)
+		r.Add("cache_sequences", es.cacheSeqs)
+		r.Add("cache_responses_served_without_a_draw", es.cacheHits)
+		r.Add("cache_candidate_sets", es.cacheWorlds)
+		r.Add("prop_vectors_off_grid", ps.offGrid)
+		r.Add("prop_cross_vectors_judged_without_row_order", ps.crossSkipped)
 		for k := 1; k <= 5; k++ {
 			r.Add(fmt.Sprintf("e2e_evaluations_size%d", k), es.bySize[k])
 		}
@@ -294,10 +321,10 @@ func main() {
 	for k, v := range bounds {
 		r.Set(k, v)
 	}
-	evals := r.Int("e2e_evaluations") + r.Int("e2e_shuffle_evaluations") + r.Int("prop_corner_evaluations") + r.Int("prop_serve_path_cross_evaluations") + r.Int("sched_executions")
+	evals := r.Int("e2e_evaluations") + r.Int("e2e_shuffle_evaluations") + r.Int("cache_evaluations") + r.Int("prop_corner_evaluations") + r.Int("prop_serve_path_cross_evaluations") + r.Int("sched_executions")
 	r.Set("evaluations", evals)
 	r.Set("traces_validated_against_impl", evals)
-	r.Set("states", r.Int("e2e_configurations")+r.Int("prop_cells")+r.Int("sched_distinct_states"))
+	r.Set("states", r.Int("e2e_configurations")+r.Int("cache_sequences")+r.Int("prop_cells")+r.Int("sched_distinct_states"))
 	r.Set("transitions", evals+r.Int("sched_steps"))
 	r.Set("distinct_nontrivial", r.Int("e2e_nontrivial")+r.Int("prop_cells")+r.Int("sched_distinct_outcomes"))
 	r.Set("sched_preemption_bound", schedBound)
